@@ -41,8 +41,14 @@ func isWork(in ssa.Instruction) bool {
 			}
 			break
 		}
-		if _, local := a.(*ssa.Alloc); local {
-			return false // a local (struct literal under construction, varargs array of a log call)
+		if al, local := a.(*ssa.Alloc); local {
+			// a local: struct literal under construction, varargs array of a log call — unless it is a named
+			// variable that lives in memory because a closure captures it or its address is taken: an
+			// assignment to it that disappears changes what the closure or the later code sees
+			if al.Heap && a == x.Addr && isSourceVar(al) {
+				return true
+			}
+			return false
 		}
 		return true
 	case *ssa.MapUpdate, *ssa.Send, *ssa.Go, *ssa.Defer, *ssa.Panic:
@@ -65,6 +71,16 @@ func isWork(in ssa.Instruction) bool {
 		return true
 	}
 	return false
+}
+
+// isSourceVar: the Alloc is a variable of the source (go/ssa names those after the variable; the ones it
+// makes up for literals and variadic calls have fixed comments).
+func isSourceVar(al *ssa.Alloc) bool {
+	switch al.Comment {
+	case "", "varargs", "complit", "slicelit", "makeslice", "new", "selectstate", "typeassert,ok", "rangeindex", "rangeiter":
+		return false
+	}
+	return !strings.Contains(al.Comment, ".") // "t0.f" style spills
 }
 
 // SkipRows lists the skip conditions of fn.
@@ -522,6 +538,9 @@ func SkipRows(fn *ssa.Function) []string {
 					_, f := core.FieldOf(x.Addr)
 					if f == "" {
 						f = "[]"
+					}
+					if al, isAl := x.Addr.(*ssa.Alloc); isAl {
+						f = "<local " + shortType(al.Type().(*types.Pointer).Elem()) + ">"
 					}
 					name = "store ." + f + " = " + clip(argText(x.Val), 140)
 				case *ssa.MapUpdate:
